@@ -62,6 +62,7 @@ def run(ctx):
     S.apply_replay(ctx)
     S.regenerate(ctx)
     ctx.prove()
+    S.huge_offset_probe(ctx)
     if ctx.thorough():
         ctx.leanchecker()
     sizes = [120] * 10 if ctx.thorough() else [60, 60]
